@@ -20,6 +20,12 @@ NUMMODE = 0
 # precision settings made (and abandoned) before the regime's own one: 0 none, 1 set_precision(2), 2 set_precision(0)
 # then set_precision(6). The precision is process-wide state; an earlier setting must leave no trace.
 PRECHIST = 0
+# in precision mode (the regime calls set_precision(n)): 1 = every Segment the harness builds is requested a little OFF
+# the grid (a different offset on each call, always less than half a grid unit), so that the same segment is reached
+# from different raw values; the library rounds at construction, so every later behaviour must be that of the grid value
+JITTER = 0
+_JITSEQ = [0.0, 0.25, -0.25, 0.4, -0.4, 0.1, -0.125, 0.375]
+_jit_counter = [0]
 
 
 def nummode_of(case):
@@ -27,6 +33,13 @@ def nummode_of(case):
     import json
     h = hashlib.sha256(json.dumps(case, sort_keys=True, default=str).encode()).digest()
     return (0, 0, 1, 2)[h[0] % 4]
+
+
+def jitter_of(case):
+    import hashlib
+    import json
+    h = hashlib.sha256(json.dumps(case, sort_keys=True, default=str).encode()).digest()
+    return h[2] % 2
 
 
 def prechist_of(case):
@@ -93,6 +106,11 @@ class TB:
 
     def S(self, s):
         from pyannote.core import Segment
+        if JITTER and self.prec is not None:
+            unit = 10.0 ** (-self.prec)
+            _jit_counter[0] += 1
+            k = _jit_counter[0]
+            return Segment(self.t(s[0]) + _JITSEQ[k % 8] * unit, self.t(s[1]) + _JITSEQ[(3 * k + 1) % 8] * unit)
         return Segment(self.t(s[0]), self.t(s[1]))
 
     def us(self, segment):
